@@ -8,10 +8,12 @@ import contracts.config_errors as CE
 import contracts.config_tabulation as CT
 import contracts.factories as FC
 import contracts.tablereaders as TRc
+import contracts.builders as BU
 
 F_CP, F_MOD = CE.F_CP, CE.F_MOD
 FUNCTIONS = [(F_CP, '_TableFormSection._parse_data'), (F_CP, '_TableFormSection._parse_xy'), (F_MOD, '_Buck4_Spline_Factory.build_spline'), (F_MOD, '_Exp_Spline_Factory.build_spline'),
-             (F_CP, '_TabulationCutoff._init_cutoff'), (FC.FILE, 'DLPOLY_PairTabulationFactory.extract_cutoffs')]
+             (F_CP, '_TabulationCutoff._init_cutoff'), (FC.FILE, 'DLPOLY_PairTabulationFactory.extract_cutoffs'),
+             (BU.FILE, 'Pair_Potentials_From_Tuples_Builder._create_potential'), (BU.FILE, 'Pair_Potentials_From_Tuples_Builder._init_potentials')]
 CONFIG_FILES = scan.package_files('atsim/potentials/config') + ['atsim/potentials/_modifiers.py', 'atsim/potentials/tools/potable/__init__.py', 'atsim/potentials/tools/potable/_actions.py']
 
 def lemmas():
@@ -61,6 +63,8 @@ def lemmas():
     return out
 
 MUTANTS = [
+    (BU.FILE, 'Pair_Potentials_From_Tuples_Builder._init_potentials', "raise Unknown_Modifier_Exception(msg)", "raise KeyError(msg)", 'raises'),
+    (BU.FILE, 'Pair_Potentials_From_Tuples_Builder._init_potentials', "potform_name=upe.args[0]", "potform_name=upe.args[1]", 'raises'),
     (F_MOD, '_Buck4_Spline_Factory.build_spline', "if not r_min < attach_point.r or not r_min > detach_point.r:", "if not r_min < attach_point.r and (not r_min > detach_point.r):", 'post'),
     (F_CP, '_TableFormSection._parse_data', "if not ('x' in section and 'y' in section):", "if not 'x' and 'y' in section:", 'call-pre'),
     (F_MOD, '_Exp_Spline_Factory.build_spline', "if spline_defn.parameters:", "if not spline_defn.parameters:", 'post'),
